@@ -166,6 +166,20 @@ class GrammarModel:
             m = _re.fullmatch(r"([A-Za-z_]\w*)(\(\?!\\w\)|\(\?!\[A-Za-z0-9_\]\)|\\b)", t["value"])
             if m:
                 return m.group(1)
+            # an operator spelled with zero-width context, e.g. (?<!\+)\+(?!\+): the consumed text is the literal between the assertions
+            try:
+                import re._parser as sp
+
+                items = list(sp.parse(t["value"]))
+            except Exception:
+                return None
+            zero_width = (sp.ASSERT, sp.ASSERT_NOT, sp.AT)
+            while items and items[0][0] in zero_width:
+                items.pop(0)
+            while items and items[-1][0] in zero_width:
+                items.pop()
+            if items and all(op is sp.LITERAL for op, _ in items):
+                return "".join(chr(v) for _, v in items)
         return None
 
     def reachable(self, start="fbody") -> set[str]:
